@@ -40,12 +40,16 @@ def main(argv=None):
         rc = ctx.finish(**getattr(drv, "EVIDENCE", {}))
     except (TLCError, common.MachineryError) as e:
         print("MACHINERY-FAILURE property=%s: %s" % (pid, str(e)[:1500]))
+        if ctx.violations:          # rejections recorded by earlier stages stand on their own
+            return ctx.finish(**getattr(drv, "EVIDENCE", {}))
         if not os.environ.get("RV_KEEP_WORK"):
             ctx.cleanup()
         return 2
     except Exception:
         traceback.print_exc()
         print("MACHINERY-FAILURE property=%s: unexpected harness exception" % pid)
+        if ctx.violations:
+            return ctx.finish(**getattr(drv, "EVIDENCE", {}))
         if not os.environ.get("RV_KEEP_WORK"):
             ctx.cleanup()
         return 2
